@@ -393,6 +393,8 @@ static void handle_evt(m_mod_t *self, const m_queue_t *evts, int hidx) {
         EvtObs o;
         observe(e, o);
         o.prio = evt_prio(s, o);
+        if (on("C04") && o.userdata && R->a.is_freed(o.userdata))
+            VIOL("C04", "C04:event-userdata-freed", "module slot %d is handed an event (type %d) whose auto-free user data has already been released", slot, o.type);
         d.evts.push_back(o);
         if (o.type == M_SRC_TYPE_FD && R->k.is_open(o.fd)) {
             // consume what the environment wrote so a level-triggered descriptor does not fire forever
@@ -1243,6 +1245,8 @@ void exec_op(const Op &op, bool in_cb, int cb_slot) {
             if (now.type != re.first.type || now.data != re.first.data || now.fd != re.first.fd || now.ns != re.first.ns || now.signo != re.first.signo ||
                 now.topic_s != re.first.topic_s || now.sender != re.first.sender || now.userdata != re.first.userdata || now.pid != re.first.pid || now.tid != re.first.tid)
                 VIOL("C04", "C04:retained-event-changed", "an event the user holds a reference on changed content (type %d)", re.first.type);
+            if (now.userdata && R->a.is_freed(now.userdata))
+                VIOL("C04", "C04:event-userdata-freed:retained", "the auto-free user data of an event (type %d) the user still holds a reference on has been released", re.first.type);
             if (now.sender) {
                 const char *nm = m_mod_name((const m_mod_t *)now.sender);
                 (void)nm;
